@@ -348,29 +348,7 @@ def r05_4(cx):
         cx.report('R05.4', ib, 'at-most-three', ok, 'no %s prefilter for more than three distinct bytes' % nm[:-7] if ok else '%s::build can construct a prefilter for more than three bytes' % nm)
 
 
-def r05_5(cx):
-    b = cx.body("nfa::noncontiguous::Compiler::<'a>::build_trie")
-    adds = b.calls(r'util::prefilter::Builder::add$')
-    if len(adds) != 1:
-        cx.bad('R05.5', b, 'prefilter-add', '%d prefilter.add call sites (expected 1)' % len(adds))
-        return
-    ab = adds[0][0]
-    loops = b.loops()
-    outer = max(loops, key=lambda h: len(loops[h])) if loops else None
-    ok = outer is not None and ab in loops[outer]
-    pl = b.calls(r'Vec.*::push$')
-    pushes = [bi for bi, t in pl if 'pattern_lens' in tstr(b.call_term(bi, t))]
-    if ok:
-        back = [s for s in b.pred(outer) if s in loops[outer]]
-        # the prefilter option itself may switch the prefilter off: that edge is exempt
-        og = bool_gates(b, lambda x: tstr(x) == 'self.builder.prefilter')
-        off = [e for g in og for e in g[3]]
-        r = b.reach(pushes[0] if pushes else outer, cut_blocks=[ab], cut_edges=off)
-        ok = not any(s in r - {ab} for s in back) if pushes else False
-    ct = b.call_term(*adds[0])
-    okarg = tstr(peel(ct[2][0])) == 'self.prefilter' and is_var(peel(ct[2][1]), 'pat')
-    cx.report('R05.5', b, 'add-before-pruning', ok and okarg, 'every pattern whose length is recorded is also handed to the prefilter builder (before the leftmost-first pruning exit)' if ok and okarg else
-              'a pattern can be recorded in pattern_lens but skipped by prefilter.add (packed pattern ids drift) or add gets another argument')
+from rules.trie import r05_5  # noqa: E402,F401
 
 
 # ------------------------------------------------------------------------------------------------- C10
